@@ -369,6 +369,14 @@ func (c *SMTCtx) Assert(t Term, note string) {
 	c.notes = append(c.notes, note)
 }
 
+// AssertAlways records a closed (ground) fact even while a quantifier body is being built.
+func (c *SMTCtx) AssertAlways(t Term, note string) {
+	saved := c.inQuant
+	c.inQuant = 0
+	c.Assert(t, note)
+	c.inQuant = saved
+}
+
 // Named introduces a definitional constant for t (keeps terms small).
 func (c *SMTCtx) Named(prefix string, t Term) Term {
 	if len(t.S) < 40 || c.inQuant > 0 {
@@ -444,6 +452,11 @@ func (c *SMTCtx) StrDecls() string {
 // Query builds the SMT-LIB text that is unsat iff goal is valid under the
 // first prefixLen assumptions.
 func (c *SMTCtx) Query(prefixLen int, goal Term, wantModel bool) string {
+	return c.QueryX(prefixLen, goal, wantModel, false)
+}
+
+// QueryX: relaxed=true omits the global quantified address axioms (used only to search for candidate countermodels).
+func (c *SMTCtx) QueryX(prefixLen int, goal Term, wantModel bool, relaxed bool) string {
 	var b strings.Builder
 	if wantModel {
 		b.WriteString("(set-option :produce-models true)\n")
@@ -470,10 +483,11 @@ func (c *SMTCtx) Query(prefixLen int, goal Term, wantModel bool) string {
 		b.WriteString("(assert (forall ((a Str) (b Str)) (! (= (str_lt a b) (< (str_rank a) (str_rank b))) :pattern ((str_lt a b)))))\n")
 		b.WriteString("(assert (forall ((a Str) (b Str)) (! (=> (= (str_rank a) (str_rank b)) (= a b)) :pattern ((str_rank a) (str_rank b)))))\n")
 	}
-	if strings.Contains(bs, "(sub ") {
+	hasQuant := (strings.Contains(bs, "(forall ") || strings.Contains(bs, "(exists ")) && !relaxed
+	if hasQuant && strings.Contains(bs, "(sub ") {
 		b.WriteString("(assert (forall ((x Int) (i Int)) (! (and (= (objof (sub x i)) (objof x)) (= (sub_base (sub x i)) x) (= (sub_key (sub x i)) i) (not (= (sub x i) 0))) :pattern ((sub x i)))))\n")
 	}
-	if strings.Contains(bs, "(ea ") {
+	if hasQuant && strings.Contains(bs, "(ea ") {
 		b.WriteString("(assert (forall ((a Int) (i Int)) (! (and (= (objof (ea a i)) (objof a)) (= (ea_base (ea a i)) a) (= (ea_idx (ea a i)) i) (= (sub_key (ea a i)) (- 1)) (not (= (ea a i) 0))) :pattern ((ea a i)))))\n")
 	}
 	if strings.Contains(bs, "str_len") {
